@@ -223,8 +223,14 @@ func (h kvHandler) handleKvScan(req *kvrpcpb.ScanRequest) *kvrpcpb.ScanResponse 
 		pairs = h.mvccStore.ReverseScan(req.EndKey, endKey, int(req.GetLimit()), req.GetVersion(), h.isolationLevel, req.Context.ResolvedLocks)
 	}
 
+	kvPairs := convertToPbPairs(pairs)
+	if req.KeyOnly {
+		for _, p := range kvPairs {
+			p.Value = nil
+		}
+	}
 	return &kvrpcpb.ScanResponse{
-		Pairs: convertToPbPairs(pairs),
+		Pairs: kvPairs,
 	}
 }
 
